@@ -27,6 +27,25 @@ def load_mutants():
             patch = os.path.join(sd, d, 'patch.diff')
         props = meta.get('check_properties') or [meta['property']]
         ms.append({'name': 'seeded-' + d, 'property': ','.join(props), 'expect': 'fire', 'key_rx': meta.get('expect_key_rx', '.'), 'patch': patch})
+    bd = os.path.join(VERIF, 'benign')
+    if os.path.isdir(bd):
+        sys.path.insert(0, VERIF)
+        from rules.core.inventory_rule import anchor_files
+        limits = {}
+        try:
+            limits = json.load(open(os.path.join(bd, 'limits.json')))
+        except Exception:
+            pass
+        props = ['C01', 'C02', 'C03', 'C04', 'C05', 'C06', 'C07', 'C08', 'C09', 'C10', 'C11', 'C12', 'C13', 'C15', 'C16', 'C17', 'C18', 'C19']
+        for f in sorted(os.listdir(bd)):
+            if not f.endswith('.diff'):
+                continue
+            touched = set(re.findall(r'^\+\+\+ b/(\S+)', open(os.path.join(bd, f)).read(), re.M))
+            ps = [p for p in props if touched & set(anchor_files(p))]
+            if not ps:
+                continue
+            name = 'benign-' + f[:-5]
+            ms.append({'name': name, 'property': ','.join(ps), 'expect': 'known-limit' if f[:-5] in limits else 'silent', 'patch': os.path.join(bd, f)})
     return ms
 
 
